@@ -541,6 +541,23 @@ Proof.
   - contradiction.
 Qed.
 
+(* Whatever plan the clone functions have put together when they reach `Secure(np)` - in particular the plan that
+   WithRemoveCompletedSequences leaves after dropping completed actions, sequences and blocks (since commit c724518 that
+   branch no longer returns before the Secure call) - every request and response it still holds comes back scrubbed. *)
+Theorem finish_any_plan : forall q, plan_wf q = true ->
+  exists v', finish false (plan_gv q) = OOk v' /\
+    (forall x, sec_at v' x -> hidden x) /\
+    Forall2 scrubbed_copy_of (collect nReq v') (plan_map action_reqs q) /\
+    Forall2 scrubbed_copy_of (collect nResp v') (plan_map action_resps q).
+Proof.
+  intros q W. pose proof (wf_plan_gv _ W) as Wg.
+  unfold plan_gv in Wg |- * at 1. rewrite (finish_struct _ Wg). fold (plan_gv q).
+  eexists. split; [reflexivity|]. split; [apply sec_at_scrub_root|].
+  rewrite scrub_plan_gv. rewrite !collect_ptr_to. change nReq with (pn true). change nResp with (pn false).
+  rewrite (collect_plan true), (collect_plan false), !pf_scrub_plan.
+  split; apply Forall2_map_scrub.
+Qed.
+
 (* all five entry points at once (the statement of C17.c17_clone_surfaces) *)
 Theorem clone_surfaces_all :
   forall dc : gv -> gv, (forall v, dc v = v) ->
